@@ -185,6 +185,19 @@ def header_tie(ctx, cd):
                                    theorem="C01_frame_header_round_trip"),
                               what="ZSTD_writeFrameHeader(windowLog %d, contentSize %d, checksum %d, noDictID %d, magicless %d, pledged %d, dictID %d) = %s but the model writes %s"
                                    % (wl, cs, ck, nd, ml, pl, di, impl.get(k), mh), no_input=True)
+    # skippable frame writer (public API) vs enc_skippable
+    sk = [(v, n) for v in (0, 1, 7, 15) for n in (0, 1, 2, 3, 255, 256, 4000)]
+    out2 = core.sh([exe], inp=("\n".join("S s%d %d %d" % (i, v, n) for i, (v, n) in enumerate(sk)) + "\n").encode())
+    impl2 = {l.split(" ")[0]: (l.split(" ")[2] if l.split(" ")[1] == "OK" else "ERR") for l in out2[1].splitlines() if l}
+    m2 = cd.model([("s%d" % i, "skip=%d" % v, bytes((j * 7 + 3) & 255 for j in range(n)), b"") for i, (v, n) in enumerate(sk)])
+    for i, (v, n) in enumerate(sk):
+        k = "s%d" % i
+        mm = m2.get(k, ("ERR", "missing", -1))
+        mh = mm[1].hex() if mm[0] == "OK" else "ERR"
+        ctx.count(("skippable", v, min(n, 4)), nontrivial=True)
+        if impl2.get(k) != mh:
+            ctx.violation(dict(kind="skippable-frame-writer", variant=v, payload_len=n, impl_hex=(impl2.get(k) or "")[:200], model_hex=mh[:200], theorem="C04_skippable_frame_then_stream"),
+                          what="ZSTD_writeSkippableFrame(variant %d, %d bytes) differs from the model enc_skippable" % (v, n), no_input=True)
     ctx.notes["header_vectors"] = len(vec)
     ctx.cov["traces_validated_against_impl"] += len(vec) - bad
 
